@@ -1,4 +1,4 @@
-import ShVerif.Proofs.C20
+import ShVerif.Proofs.C20Parse
 /-
   C20 — Arithmetic evaluation matches bash.  Property theorems (statements are fixed; helper
   lemmas live in ShVerif/Proofs/C20*.lean).
@@ -301,13 +301,13 @@ theorem prec_assoc_unary :
     parseArith [.sym .minus, .sym .subSub, tX] = some (.unary .minus false (.unary .dec false eX)) := by
   decide
 
-/-- The round trip (stated, not proved here): a tree whose operands sit at the levels of the chain
-    (`PrecOK`) prints, without any parenthesis of its own, to a token list that parses back to the
-    same tree.  It is checked on every run for generated trees, both on the model
-    (`print` ops) and on the real parser (harness search leg); the proved part of `prec_assoc` are
-    the four table theorems above. -/
-def prec_assoc_roundtrip_statement : Prop :=
-  ∀ e : Expr, PrecOK e = true → parseArith (printArith e) = some e
+/-- The round trip: a tree whose operands sit at the levels of the chain (`PrecOK`: left-associative
+    operators take a left operand of their own level or tighter and a strictly tighter right
+    operand, `**` and assignment the other way round, `c ? t : f` any `t`, prefix operators bind
+    tighter than `**`, `++`/`--` apply to names) prints, without any parenthesis of its own, to a
+    token list that parses back to exactly the same tree — with the fuel `parseArith` itself uses. -/
+theorem prec_assoc (e : Expr) (h : PrecOK e = true) : parseArith (printArith e) = some e :=
+  parse_print e h
 
 example :
     let e : Expr := .binary .assgn eX (.binary .add (.binary .mul eY (.paren (.binary .comma eX eZ)))
